@@ -579,10 +579,17 @@ Preempt(S, n, v, j) ==
                                                   !.rdate = INF])      \* its service had started: it no longer reneges
                      T3 == Detach(T2, n, sid, v, 0)   \* exit_date, service_start_date both False: credit 0
                  IN DecideClassChange(T3, n, v)
+        \* (finding F23) the victim was served in overtime: detaching it removed the server, and the pre-empting
+        \* customer is attached to that removed server all the same: it refers to a server that is not at the node
+        attachAny(T) ==
+            IF HasSrv(T, n, sid) THEN Attach(T, n, sid, j)
+            ELSE LET T0 == Step(T, [St("attach") EXCEPT !.n = n, !.s = sid, !.i = j])
+                 IN SetCu(T0, j, [Cu(T0, j) EXCEPT !.srv = DeadRef(sid)])
         takeOver(T) ==
-            IF ~HasSrv(T, n, sid) THEN Crash(T, "unmodelled:preempt-offduty-server")
+            \* (exhaustive exploration stops here: beyond this point the state is outside every property's domain)
+            IF ~HasSrv(T, n, sid) /\ T.mode = "mc" THEN Crash(T, "unmodelled:preempt-offduty-server")
             ELSE
-            LET T1 == Attach(T, n, sid, j)
+            LET T1 == attachAny(T)
                 T2 == SetCu(T1, j, [Cu(T1, j) EXCEPT !.ss = T1.now])
                 T3 == Step(T2, [St("start") EXCEPT !.n = n, !.i = j, !.s = sid, !.x = T2.now])
             IN GiveServiceTime(T3, n, j, LAMBDA U :
